@@ -451,6 +451,29 @@ def r2_relations(ctx):
                                     f"{a!r}")
 
 
+    # ... and a missing column ends nothing: the loop over the height-like
+    # columns is never left early
+    for lp_ in walk_no_nested(f, False):
+        if not isinstance(lp_, ast.For) or not any(
+                isinstance(x, ast.Assign) and isinstance(
+                    x.targets[0], ast.Subscript) and norm(
+                    x.targets[0].value) in ("apret.appr", "apret.retr")
+                for x in ast.walk(lp_)):
+            continue
+        inner = {id(y) for z in ast.walk(lp_) if z is not lp_ and isinstance(
+            z, (ast.For, ast.While)) for y in ast.walk(z)}
+        for x in ast.walk(lp_):
+            if isinstance(x, (ast.Break, ast.Return)) and id(x) not in inner:
+                ctx.fail(x, "the column loop of smooth_height runs to its "
+                         "end",
+                         "smooth_height leaves its loop over the height-like "
+                         "columns early (" + " and ".join(
+                             repr(a) for a in conditions_at(x, stop=lp_))[:80]
+                         + "): the columns that follow in the list - "
+                         "'tip position' after a missing 'height (piezo)' - "
+                         "are not smoothed")
+
+
 def r3_monotone_test(ctx):
     sm = ctx.repo.mod("smooth")
     f = sm.func("smooth_axis_monotone")
